@@ -20,14 +20,14 @@ func init() {
 		ID: "C06", Level: "exploration", Primary: "pipeline_shapes", EvalCount: "requests_numbered",
 		Rule: "one pipeline = N (1..256) requests of mixed operations on one connection, message IDs a random permutation-like draw (so Request.ID cannot be confused with the message ID), written in one " +
 			"segment or dribbled; some requests have no route (gaps in the observed numbering); a PRNG-chosen subset of handlers parks on a rendezvous: handler i returns only after handler i+d " +
-			"(or a handler on a second connection) has entered; a second family of pipelines performs a real StartTLS upgrade in the middle (numbering must continue across it); a third has its first handler blocked inside Write by a client that does not read (later handlers must still be entered); a fourth repeats message IDs within the pipeline (requests identified by DN, every handler waiting for all others); a fifth keeps a handler blocked while its own connection ends (FIN, reset, Unbind, malformed frame) and requires connections that exist already and connections made afterwards to be served meanwhile; a sixth sends N requests and, in the same write, an Unbind / half-close / close (every request that was read is handed to its handler); a seventh has a handler that outlives the server's read timeout while the client is silent, then further requests on that connection (whatever is still served carries its arrival position); an eighth blocks 1250..1500 handlers at once over 5..6 connections of one server (each waits for all of them); every eighth short pipeline's add and modify requests carry a 100KB value; every fourth mixed pipeline runs on a server created WithDisablePanicRecovery, every fifth over a TLS listener, every sixth on a server with a 30s read timeout. Oracle: Request.ID == 1-based position in the client's send order for every handler invocation; every rendezvous completes. " +
+			"(or a handler on a second connection) has entered; a second family of pipelines performs a real StartTLS upgrade in the middle (numbering must continue across it); a third has its first handler blocked inside Write by a client that does not read (later handlers must still be entered); a fourth repeats message IDs within the pipeline (requests identified by DN, every handler waiting for all others); a fifth keeps a handler blocked while its own connection ends (FIN, reset, Unbind, malformed frame) and requires connections that exist already and connections made afterwards to be served meanwhile; a sixth sends N requests and, in the same write, an Unbind / half-close / close (every request that was read is handed to its handler); a seventh has a handler that outlives the server's read timeout while the client is silent, then further requests on that connection (whatever is still served carries its arrival position); an eighth blocks 1250..1500 handlers at once over 5..6 connections of one server (each waits for all of them); a ninth sends a connection's second request 20ms, 1.3s, 2.7s (thorough: 6s) after its first handler was entered, which stays blocked until the second handler has been entered; every eighth short pipeline's add and modify requests carry a 100KB value; every fourth mixed pipeline runs on a server created WithDisablePanicRecovery, every fifth over a TLS listener, every sixth on a server with a 30s read timeout. Oracle: Request.ID == 1-based position in the client's send order for every handler invocation; every rendezvous completes. " +
 			"distinct_nontrivial = distinct (N, operation mix, rendezvous pattern, write mode) signatures with at least one satisfied rendezvous",
 		Assume: []string{"extended requests are identified by the exact-name route that served them (their message ID is not exposed to handlers)",
 			"a rendezvous that does not complete within the watchdog is judged only by the recorded enter/exit order (serial dispatch), otherwise inconclusive"},
 		Phases: func(tier string, seed int64) []Phase {
 			return []Phase{{Name: "pipelines", Run: c06Run}}
 		},
-		MinObserved: []string{"requests_numbered", "rendezvous_satisfied", "cross_connection_rendezvous_satisfied", "pipelines_with_starttls_upgrade", "pipelines_with_a_handler_blocked_in_write", "requests_served_through_the_default_route", "pipelines_with_repeated_message_ids", "connections_served_while_another_connections_handler_is_blocked", "fire_and_forget_pipelines", "pipelines_on_a_server_without_panic_recovery", "connections_with_a_handler_outliving_the_read_timeout", "pipelines_over_a_tls_listener", "pipelines_on_a_server_with_a_read_timeout", "extended_requests_under_well_known_names", "requests_carrying_a_100kb_value", "runs_with_more_than_a_thousand_handlers_blocked_at_once"},
+		MinObserved: []string{"requests_numbered", "requests_dispatched_while_an_earlier_handler_had_been_blocked_for_more_than_a_second", "rendezvous_satisfied", "cross_connection_rendezvous_satisfied", "pipelines_with_starttls_upgrade", "pipelines_with_a_handler_blocked_in_write", "requests_served_through_the_default_route", "pipelines_with_repeated_message_ids", "connections_served_while_another_connections_handler_is_blocked", "fire_and_forget_pipelines", "pipelines_on_a_server_without_panic_recovery", "connections_with_a_handler_outliving_the_read_timeout", "pipelines_over_a_tls_listener", "pipelines_on_a_server_with_a_read_timeout", "extended_requests_under_well_known_names", "requests_carrying_a_100kb_value", "runs_with_more_than_a_thousand_handlers_blocked_at_once"},
 	})
 }
 
@@ -1069,8 +1069,98 @@ func c06FireAndForget(c *Ctx, r *Rand, idx int) {
 	c.Distinct("pipeline_shapes", fmt.Sprintf("fire-and-forget/%d/%s", n, ending))
 }
 
+// c06LateRequests: a handler that has been blocked for a while - 20ms, 1.3s, 2.7s, (thorough) 6s - when the next
+// request of its connection arrives; it stays blocked until that request's handler has been entered. However long
+// a handler has been running, the next request read is handed to its handler.
+func c06LateRequests(c *Ctx, round int) {
+	type cell struct {
+		first, second chan struct{}
+	}
+	var mu sync.Mutex
+	cells := map[string]*cell{}
+	safeClose := func(ch chan struct{}) {
+		defer func() { recover() }() // (closed twice only when the harness has already given up on a cell)
+		close(ch)
+	}
+	get := func(k string) *cell {
+		mu.Lock()
+		defer mu.Unlock()
+		if cells[k] == nil {
+			cells[k] = &cell{make(chan struct{}), make(chan struct{})}
+		}
+		return cells[k]
+	}
+	srv, err := startSrv(SrvCfg{}, func(m *gldap.Mux) {
+		m.Delete(func(w *gldap.ResponseWriter, req *gldap.Request) {
+			dm, err := req.GetDeleteMessage()
+			if err != nil {
+				return
+			}
+			var k string
+			var pos int
+			fmt.Sscanf(dm.DN, "cn=%s p%d", &k, &pos)
+			ce := get(k)
+			if pos == 1 {
+				safeClose(ce.first)
+				<-ce.second // (opened by the second request's handler, or by the harness when it gives up)
+			} else {
+				safeClose(ce.second)
+			}
+			w.Write(req.NewResponse(gldap.WithApplicationCode(gldap.ApplicationDelResponse), gldap.WithResponseCode(0)))
+		})
+	})
+	if err != nil {
+		c.Inconclusive("server start: " + err.Error())
+		return
+	}
+	defer srv.StopWithin(patience)
+	gaps := []time.Duration{20 * time.Millisecond, 1300 * time.Millisecond, 2700 * time.Millisecond}
+	if !c.Quick() {
+		gaps = append(gaps, 6*time.Second)
+	}
+	var wg sync.WaitGroup
+	for gi, gap := range gaps {
+		wg.Add(1)
+		go func(gi int, gap time.Duration) {
+			defer wg.Done()
+			k := fmt.Sprintf("r%dg%d", round, gi)
+			ce := get(k)
+			cn, err := net.Dial("tcp", srv.Addr)
+			if err != nil {
+				c.Inconclusive("dial: " + err.Error())
+				return
+			}
+			defer cn.Close()
+			cn.Write(sber.Message(1, sber.DelRequest([]byte(fmt.Sprintf("cn=%s p1", k))), nil).Encode())
+			select {
+			case <-ce.first:
+			case <-time.After(patience):
+				c.Inconclusive("late requests: the first handler was not entered")
+				return
+			}
+			time.Sleep(gap)
+			cn.Write(sber.Message(2, sber.DelRequest([]byte(fmt.Sprintf("cn=%s p2", k))), nil).Encode())
+			select {
+			case <-ce.second:
+				c.Count("requests_dispatched_while_an_earlier_handler_had_been_blocked_for_a_while", 1)
+				if gap > time.Second {
+					c.Count("requests_dispatched_while_an_earlier_handler_had_been_blocked_for_more_than_a_second", 1)
+				}
+			case <-time.After(patience):
+				c.Violate("a blocked handler delays the dispatch of later requests", fmt.Sprintf("the handler of a connection's first request had been blocked for %s when the second request was sent; %s later the second request has not been handed to its handler (the first handler waits for exactly that)", gap, patience), map[string]any{"gap_ms": gap.Milliseconds()})
+				safeClose(ce.second)
+			}
+			wrapClient(cn).ReadMsg(2 * time.Second)
+		}(gi, gap)
+	}
+	wg.Wait()
+}
+
 func c06Run(c *Ctx) {
 	pki := newPKI()
+	for i := 0; i < c.N(1, 4); i++ {
+		c06LateRequests(c, i)
+	}
 	for i := 0; i < c.N(12, 200); i++ {
 		c06BlockedInWrite(c, c.Rng.Sub(fmt.Sprintf("bw%d", i)), i)
 	}
